@@ -82,8 +82,8 @@ var properties = map[string]*propSpec{
 		Rule: "runs of scenario pick: generated cluster layouts and add/remove/up/down/keyspace histories against a host-set model, picks iterated to exhaustion, plus scheduled picks racing mutations; distinct = distinct canonical-log fingerprint; non-trivial = at least one state-changing history op was applied and at least one checked pick with two or more known hosts completed"},
 	"C08": {Level: "exploration", Scenarios: []scenRef{{Name: "ids", quickS: 15, thoroughS: 600, Extra: []string{"-sim.nofaultevery=0"}}}, CrashProperty: "C08",
 		Rule: "runs of scenario ids: tape-chosen interleavings of the allocator's atomic steps; distinct = distinct canonical-log fingerprint; non-trivial = at least one park fired (two callers inside the allocator at once) and at least one operation completed"},
-	"C06": {Level: "exploration", Scenarios: []scenRef{{Name: "mux", quickS: 20, thoroughS: 600}}, CrashProperty: "C06", DeadlockProperty: "C06",
-		Rule: "runs of scenario mux; distinct = distinct canonical-log fingerprint; non-trivial = at least one injected fault or park fired and at least one operation completed"},
+	"C06": {Level: "exploration", Scenarios: []scenRef{{Name: "mux", quickS: 20, thoroughS: 600}, {Name: "life", quickS: 10, thoroughS: 200}}, CrashProperty: "C06", DeadlockProperty: "C06",
+		Rule: "runs of scenario mux, and of scenario life for connections (pooled and control) that fail in the middle of a response; distinct = distinct canonical-log fingerprint; non-trivial = at least one injected fault or park fired and at least one operation completed"},
 }
 
 func writeEvidence(prop string, spec *propSpec, tier string, seed int64, total *agg, per map[string]*agg, nviol int, wall time.Duration) {
